@@ -3,12 +3,30 @@ import QclibModel.Proofs.FnPointsTelescope
 import QclibModel.Proofs.FnPointsLoop
 import QclibModel.Proofs.FnPointsReal
 import QclibModel.Proofs.FnPointsNPrime
+import QclibModel.Gen.FnNPrime
 /-
   C18 — FnPointsInitialize: uniform-magnitude, phase-encoded superposition of the listed inputs.
   Property theorems only; proofs live in Proofs/FnPoints*.lean.
 -/
 namespace Qclib
 open RotSem
+
+/-- **C18 (source tie, N' rule).**  `Gen.FnNPrime.fn_n_prime` is re-translated on every run from the
+statements of `FnPointsInitialize.__init__` that compute `self.n_output_values`
+(`default_n_output_values = max(params.values()) - 1` and the `opt_params` branches; `max(params.values())`,
+`opt_params is None` and `opt_params.get("n_output_values")` are its parameters).  For every list of
+outputs, every way of passing (or not passing) `opt_params` and every requested value it equals the hand
+model `fnNPrime` the other theorems use: the default `max s − 1` when `opt_params` is `None` or has no
+(or a `None`) entry, else the larger of the requested value and that default.  An edit of the `- 1`, of
+the `max`, or of the `None` handling in the source breaks this proof. -/
+theorem C18_nprime_src (ss : List Int) (optNone : Bool) (N : Option Int) :
+    Gen.FnNPrime.fn_n_prime (fnMaxS ss) optNone N = fnNPrime (if optNone then none else N) ss := by
+  unfold Gen.FnNPrime.fn_n_prime fnNPrime
+  cases optNone <;> cases N <;> simp
+
+/-- Non-vacuity: outputs with maximum 5 — default 4; requested 7 gives 7, requested 2 gives 4. -/
+example : Gen.FnNPrime.fn_n_prime 5 true none = 4 ∧ Gen.FnNPrime.fn_n_prime 5 false (some 7) = 7
+    ∧ Gen.FnNPrime.fn_n_prime 5 false (some 2) = 4 ∧ Gen.FnNPrime.fn_n_prime 5 false none = 4 := by decide
 
 /-- **C18 (Toffoli ladder).**  For every `n ≥ 2`, every layout with pairwise distinct wires, every
 bit pattern `z`, *every* state `ψ` and every label `b` whose work qubits `g` are clean: the
